@@ -3,9 +3,9 @@
 export GOFLAGS=-mod=mod GOPROXY=off GOSUMDB=off GOTOOLCHAIN=local
 d=$1; cd $d || exit 2
 git apply -R OUT/patch.diff 2>/dev/null; git checkout -q -- . 2>/dev/null
-( timeout 900 bash OUT/run_demo.sh >/tmp/w/demo-clean.log 2>&1; echo "  clean demo exit=$?" )
+( timeout 900 bash OUT/run_demo.sh >/tmp/w/demo-clean-$(basename $d).log 2>&1; echo "  clean demo exit=$?" )
 git apply OUT/patch.diff || { echo "  PATCH DOES NOT APPLY"; exit 2; }
-( timeout 1200 bash OUT/run_demo.sh >/tmp/w/demo-mut.log 2>&1; echo "  mutant demo exit=$?" )
+( timeout 1200 bash OUT/run_demo.sh >/tmp/w/demo-mut-$(basename $d).log 2>&1; echo "  mutant demo exit=$?" )
 bad=$(/verif/tools/seed.sh suite $d | grep -v '^ok' | head -5)
 echo "  suite with patch: ${bad:-all ok}"
 git checkout -q -- .
